@@ -35,6 +35,31 @@ SCRATCH = None
 # ---------------------------------------------------------------- object graph
 SKIP_CLASSES = {"OdxLinkId", "OdxLinkRef", "OdxDocFragment"}
 SKIP_FIELDS = {"short_name", "odx_id"}
+# fields which are not described by the element itself but follow from the tag name / the class which
+# the parser chose: setting them alone makes the object inconsistent, a writer cannot preserve that
+TAG_DETERMINED = {
+    "variant_type": "the tag of the layer (BASE-VARIANT, ECU-VARIANT, ...) determines it",
+    "response_type": "the tag of the response (POS-RESPONSE, NEG-RESPONSE, GLOBAL-NEG-RESPONSE) determines it",
+    "category": "the compu method class is chosen by CATEGORY; changing the field alone contradicts the class",
+}
+
+
+def contextual_fields(cls):
+    """fields which from_et receives from the enclosing element (extra parameters of from_et: the data types a compu
+    method, scale, limit or constant is interpreted with): not independently described either"""
+    import inspect
+    out = set()
+    for k in cls.__mro__:
+        for nm, fn in list(k.__dict__.items()):
+            if not nm.endswith("from_et"):
+                continue
+            fn = getattr(fn, "__func__", fn)
+            try:
+                ps = list(inspect.signature(fn).parameters)
+            except Exception:  # noqa
+                continue
+            out |= {x for x in ps if x not in ("et_element", "doc_frags", "cls", "self", "et", "doc_fragments")}
+    return out
 
 
 def is_dc(o):
@@ -167,9 +192,12 @@ def strip_optional(t):
     return t, False
 
 
-def perturbed(t, old, variant):
+def perturbed(t, old, variant, markup=False):
     """a non-default value of type t different from old, or (False, None)"""
     base, opt = strip_optional(t)
+    if base is str and markup:
+        new = ["<p>P &amp; q &lt; r</p>", "<p>Pq7</p>", "Pq7"][variant]
+        return True, new
     if base is str:
         new = [META, TAME, "7"][variant]
         return (True, new) if new != old else (True, new + "x")
@@ -196,8 +224,11 @@ def field_table(db):
     def visit(o, path):
         cls = type(o)
         hints = hints_of(cls)
+        ctx = contextual_fields(cls)
         for f in dataclasses.fields(o):
             if f.name in SKIP_FIELDS or f.name.startswith("_") or f.name.endswith("_snref") or f.name.endswith("snrefs"):
+                continue
+            if f.name in TAG_DETERMINED or f.name in ctx:
                 continue
             t = hints.get(f.name)
             if t is None:
@@ -224,11 +255,19 @@ def base_databases(rng, quick):
 
         def mk(seed=seed):
             r = random.Random(seed)
-            for _ in range(50):
-                c = c10.gen_case(r, fault=None, big=True)
-                err, db = c10.impl_load(c)
-                if db is not None:
-                    return db
+            # the writer drops DOCREF / DOCTYPE of all but PARENT-, IMPORT- and COMPARAM- references (known finding
+            # docref-dropped, probed separately): the generated link databases use fragment-relative references
+            c10.DOCREFS[0] = False
+            try:
+                for _ in range(200):
+                    c = c10.gen_case(r, fault=None, big=True)
+                    if len(c.conts) != 1:
+                        continue
+                    err, db = c10.impl_load(c)
+                    if db is not None:
+                        return db
+            finally:
+                c10.DOCREFS[0] = True
             raise RuntimeError("no loadable generated database")
         out.append((f"links{k}", mk))
     for k in range(1 if quick else 4):
@@ -251,6 +290,7 @@ def base_databases(rng, quick):
     import c15
     if hasattr(c15, "emit"):
         pass
+    out.append(("extras", lambda: hc.load_docs([open(os.path.join(os.path.dirname(os.path.abspath(__file__)), "c11_extra.xml")).read()])))
     out.append(("comparams", lambda: hc.load_docs([hc.cpsubset_doc(), hc.cpsubset2_doc(), hc.cpspec_doc()])))
     return out
 
@@ -392,15 +432,24 @@ def run(ck, rng, quick):
                 olds = [getattr(o, fname, None) for o, _, _ in insts]
                 news = []
                 for (o, path, t), old in zip(insts, olds):
-                    _, nv = perturbed(t, old, variant)
+                    # the text of a DESC is XHTML markup, not character data
+                    _, nv = perturbed(t, old, variant, markup=(cls == "Description" and fname == "text"))
                     news.append(nv)
                     object.__setattr__(o, fname, nv)
                 rep = {"base": bname, "cls": cls, "field": fname, "variant": variant, "value": repr(news[0])}
+                tags = {"pert", f"{cls}.{fname}"}
                 try:
+                    # derived attributes (resolved references, converted keys, ...) follow the described ones
+                    _, e_ref, _ = cc.guarded(db.refresh, timeout=60)
+                    if e_ref is not None:
+                        ck.hist("perturbation", f"rejected:refresh:{type(e_ref).__name__}")
+                        if isinstance(news[0], str) and variant < 2:
+                            continue
+                        break
                     dbp, err, info2 = roundtrip(db, "pert")
                     ck.count(("pert", bname, cls, fname, variant))
                     if err == "parse":
-                        ck.violation(f"{cls}.{fname} = {news[0]!r}: the written document is not well-formed XML ({info2})", rep)
+                        report(ck, tags | {"not-well-formed"}, f"{cls}.{fname} = {news[0]!r}: the written document is not well-formed XML ({info2})", rep)
                         break
                     if err:
                         ck.hist("perturbation", f"rejected:{err}")
@@ -411,12 +460,14 @@ def run(ck, rng, quick):
                     ck.hist("perturbation", "ok:" + type(news[0]).__name__)
                     d = db_diff(db, dbp)
                     if d:
-                        ck.violation(f"{cls}.{fname} set to {news[0]!r}: after write + load the database differs at "
-                                     f"{'.'.join(map(str, d[0]))}: {d[1]}", rep)
+                        report(ck, tags, f"{cls}.{fname} set to {news[0]!r}: after write + load the database differs at "
+                               f"{'.'.join(map(str, d[0]))}: {d[1]}", rep)
                     break
                 finally:
                     for (o, _, _), old in zip(insts, olds):
                         object.__setattr__(o, fname, old)
+                    cc.guarded(db.refresh, timeout=60)
+    probes(ck)
     ck.assumptions = [
         "the order of the containers / subsets / specs inside the database object follows the file order; databases are compared with these "
         "lists sorted by short name",
@@ -435,6 +486,63 @@ def run(ck, rng, quick):
         "behaviour, member orders x 3 load entry points, and every (element class, dataclass field) reachable, set on all instances to a "
         "non-default value (strings: all five metacharacters, then tame values if the loader rejects) -> write -> load -> compare trees; "
         "quick tier samples the (class, field) pairs")
+
+
+H = ('<?xml version="1.0" encoding="UTF-8"?><ODX MODEL-VERSION="2.2.0" xmlns:xsi="http://www.w3.org/2001/XMLSchema-instance">')
+
+
+def _dop(i):
+    return (f'<DATA-OBJECT-PROP ID="{i}"><SHORT-NAME>{i}</SHORT-NAME><COMPU-METHOD><CATEGORY>IDENTICAL</CATEGORY></COMPU-METHOD>'
+            '<DIAG-CODED-TYPE BASE-DATA-TYPE="A_UINT32" xsi:type="STANDARD-LENGTH-TYPE"><BIT-LENGTH>8</BIT-LENGTH></DIAG-CODED-TYPE>'
+            '<PHYSICAL-TYPE BASE-DATA-TYPE="A_UINT32"/></DATA-OBJECT-PROP>')
+
+
+def probes(ck):
+    """situations behind the recorded findings, probed on purpose so that they are reported (as findings) while they persist"""
+    # 1. a DOCREF to another container on an ordinary reference
+    k0 = (H + '<DIAG-LAYER-CONTAINER ID="K0"><SHORT-NAME>K0</SHORT-NAME><BASE-VARIANTS><BASE-VARIANT ID="A"><SHORT-NAME>A</SHORT-NAME>'
+          f'<DIAG-DATA-DICTIONARY-SPEC><DATA-OBJECT-PROPS>{_dop("X")}</DATA-OBJECT-PROPS></DIAG-DATA-DICTIONARY-SPEC>'
+          '</BASE-VARIANT></BASE-VARIANTS></DIAG-LAYER-CONTAINER></ODX>')
+    k1 = (H + '<DIAG-LAYER-CONTAINER ID="K1"><SHORT-NAME>K1</SHORT-NAME><BASE-VARIANTS><BASE-VARIANT ID="B"><SHORT-NAME>B</SHORT-NAME>'
+          '<REQUESTS><REQUEST ID="rq"><SHORT-NAME>rq</SHORT-NAME><PARAMS><PARAM xsi:type="VALUE"><SHORT-NAME>p</SHORT-NAME>'
+          '<DOP-REF ID-REF="X" DOCREF="K0" DOCTYPE="CONTAINER"/></PARAM></PARAMS></REQUEST></REQUESTS>'
+          '</BASE-VARIANT></BASE-VARIANTS></DIAG-LAYER-CONTAINER></ODX>')
+    try:
+        db = hc.load_docs([k0, k1])
+        ck.count(("probe", "docref"))
+        db2, err, info = roundtrip(db, "probe")
+        d = None if err else db_diff(db, db2)
+        if err or d:
+            report(ck, {"docref-dropped"}, f"DOP-REF with DOCREF to another container: {err or d}", {"probe": "docref"})
+    except Exception as e:  # noqa
+        ck.note_broken(f"probe docref: {type(e).__name__}: {e}")
+    # 2. a PARENT-REF without DOCREF
+    k2 = (H + '<DIAG-LAYER-CONTAINER ID="K0"><SHORT-NAME>K0</SHORT-NAME><BASE-VARIANTS><BASE-VARIANT ID="A"><SHORT-NAME>A</SHORT-NAME>'
+          '</BASE-VARIANT></BASE-VARIANTS><ECU-VARIANTS><ECU-VARIANT ID="V"><SHORT-NAME>V</SHORT-NAME><PARENT-REFS>'
+          '<PARENT-REF ID-REF="A" xsi:type="BASE-VARIANT-REF"/></PARENT-REFS></ECU-VARIANT></ECU-VARIANTS></DIAG-LAYER-CONTAINER></ODX>')
+    try:
+        db = hc.load_docs([k2])
+        ck.count(("probe", "parent-docref"))
+        db2, err, info = roundtrip(db, "probe")
+        d = None if err else db_diff(db, db2)
+        if err or d:
+            report(ck, {"parent-ref-docref-added"}, f"PARENT-REF without DOCREF: {err or d}", {"probe": "parent-docref"})
+    except Exception as e:  # noqa
+        ck.note_broken(f"probe parent-docref: {type(e).__name__}: {e}")
+    # 3. names the parsers read but no template emits
+    import translate
+    reads, writes, gaps = translate.xml_names()
+    still = [g for g in gaps if g in reads and g not in writes]
+    if still:
+        report(ck, {"unwritten-names"}, f"tags read but never written: {still}", {"probe": "names"})
+
+
+def report(ck, tags, what, rep):
+    f = ck.match_known(tags)
+    if f is not None:
+        ck.known_finding(f["id"], f["what"])
+    else:
+        ck.violation(what, rep)
 
 
 def check_entry_points(ck, rng, bname, db, pdx, quick):
